@@ -30,12 +30,12 @@ CONTRACT_MODULES = ["contracts.nodes", "contracts.times", "contracts.captures", 
                     "contracts.canaries"]
 
 TRUSTED_BASE = [
-    "pyvc (this repository): path exploration by decision-prefix re-execution of the real function objects under CPython 3.12; proxy models SymInt/Name/SymSeq/SymStr; T1-T4 AST instrumentation (identity on concrete data, checked by running the repository's tests on the instrumented modules in the thorough tier)",
+    "pyvc (this repository): path exploration by decision-prefix re-execution of the real function objects under CPython 3.12; proxy models SymInt/Name/SymSeq/SymStr; T1-T5 AST instrumentation (identity on concrete data, checked by running the repository's tests on the instrumented modules in the thorough tier)",
     "rx/rxeq (this repository): regex parser for the dialect JASM emits, Thompson NFA, on-the-fly product determinisation; complete for the regular-language VCs",
     "z3 5.1 (integer / boolean VCs and path feasibility)",
     "T-regex: `regex.search/finditer` return the leftmost match of the standard match relation, finditer resumes at the end of the previous match",
-    "T-loop (paper): X{lo,hi} == X{lo,} when '|' not in X, hi >= 256 and every record has <= 256 characters (A-len)",
-    "T-sub / T-cat (paper): obligations proved over the extended alphabet hold for every substitution of opaque letters by names without separators and by children satisfying their level contract; the concatenation of closed children is closed",
+    "T-loop: X{lo,hi} == X{lo,} when '|' not in X, hi >= 256 and every record has <= 256 characters (A-len) -- mechanised for the regular core (Lean 4 + Mathlib: lean/TLoop.lean, theorems tloop / agree_add / agree_mul / agree_kstar: agreement on factor-closed word sets is a congruence for union, concatenation, star); its use below look-aheads and back-references remains a paper argument",
+    "T-sub / T-cat: obligations proved over the extended alphabet hold for every substitution of opaque letters by names without separators and by children satisfying their level contract; the concatenation of closed children is closed -- the algebraic core is mechanised (lean/TSub.lean: regular substitution is monotone, preserves equalities and commutes with union and concatenation); that the extended stream grammar is the pre-image of the stream grammar under the substitution remains a paper argument (DESIGN appendix A)",
     "stream grammar K (DESIGN 3.1) is what the parser+encoder produce: established by C08-C10's obligations relative to the objdump line grammar G (A-objdump)",
 ]
 
@@ -47,6 +47,11 @@ def load_contracts() -> None:
         except ModuleNotFoundError as e:
             if e.name != m:
                 raise
+
+
+def instrument_error():
+    from vf import instrument
+    return instrument.InstrumentError
 
 
 def _run_scenario(idx: int) -> Tuple[int, List[Dict[str, Any]], Optional[str], float, Dict[str, Any]]:
@@ -69,6 +74,8 @@ def _run_scenario(idx: int) -> Tuple[int, List[Dict[str, Any]], Optional[str], f
                     "pyvc", time.time() - t, "", "executions diverge (hidden state in the code under contract, or a leaked proxy payload): " + str(e)[:600])
             return idx, [ob.to_json()], None, time.time() - t, {}
         return idx, [], "CheckerError: " + str(e), time.time() - t, {}
+    except instrument_error() as e:
+        return idx, [], "CheckerError: " + str(e), time.time() - t, {}
     except Exception as e:
         # the code under contract no longer fits the scenario (changed signature, unsupported construct, ...):
         # the scenario's obligations are UNDECIDED, never silently passed and never a violation by themselves
@@ -83,7 +90,8 @@ def _alpha_notes() -> Dict[str, Any]:
     from vf import alpha, instrument
     ren, notes = alpha.renames_for(os.path.join(instrument.repo_root(), "src"))
     src = os.path.join(instrument.repo_root(), "src")
-    return {"applied": dict(ren), "aliases": [list(a) for a in alpha.ALIASES.get(src, [])], "parameters": alpha.PARAMS.get(src, {}), "notes": list(notes),
+    from vf import jasmrt
+    return {"applied": dict(ren), "moved": list(jasmrt.MOVED_NOTES), "aliases": [list(a) for a in alpha.ALIASES.get(src, [])], "parameters": alpha.PARAMS.get(src, {}), "notes": list(notes),
             "what": "contracts are keyed by name; an identifier that was consistently renamed in the tree (old name gone, new name fresh) "
                     "is read under its old name in every module before the obligations are generated -- a bijective renaming, nothing else is changed"}
 
@@ -154,6 +162,30 @@ def _run_all(idxs: List[int], jobs: int):
         except Exception as e:           # noqa
             results.append(_died(i, f"the worker process died or timed out ({type(e).__name__}): out of memory / time in the automaton or solver back end"))
     return results
+
+
+def _lean_record(tier: str, prop: str) -> Dict[str, Any]:
+    """lean/last_check.json is cited only while the hashes of the Lean files still match; the thorough tier of C10 re-checks"""
+    import hashlib
+    import subprocess
+    rec_path = os.path.join(ROOT, "lean", "last_check.json")
+    out: Dict[str, Any] = {"what": "paper lemmas that are machine-checked: unique decodability of the stream encoding (C10), T-loop (all regex VCs)",
+                           "checker": "tools/check_lean.sh (Lean 4.33 + Mathlib under /opt/veriftools)"}
+    if tier == "thorough" and prop == "C10" and os.path.isdir("/opt/veriftools/mathlib4"):
+        try:
+            r = subprocess.run([os.path.join(ROOT, "tools", "check_lean.sh")], capture_output=True, text=True, timeout=1200)
+            out["rechecked_now"] = (r.returncode == 0)
+        except Exception as e:      # noqa
+            out["rechecked_now"] = f"not run: {e}"
+    try:
+        rec = json.load(open(rec_path))
+        for fn in ("Decodable.lean", "TLoop.lean", "TSub.lean"):
+            h = hashlib.sha256(open(os.path.join(ROOT, "lean", fn), "rb").read()).hexdigest()[:16]
+            rec[fn]["current"] = (rec[fn]["sha256_16"] == h)
+        out["record"] = rec
+    except Exception as e:          # noqa
+        out["record"] = f"unavailable: {e}"
+    return out
 
 
 def load_findings() -> Dict[str, Any]:
@@ -359,6 +391,7 @@ def main(argv=None) -> int:
         "replay_files": replay_paths,
         "repo_tree": os.environ.get("JASM_REPO", "/repo"),
         "identifier_normalisation": _alpha_notes(),
+        "mechanised_lemmas": _lean_record(args.tier, prop),
     }
     coverage.update({k: v for k, v in extra.items() if k != "bounded_standins"})
     if True:
